@@ -240,31 +240,35 @@ example : FloatFmtOK natDigits :=
   ⟨fun b _ _ c hc => by have := natDigits_digit b c hc; simp [numChar, this.1, this.2],
    fun _ _ _ _ _ _ h => natDigits_inj h⟩
 
-/-- the zero record is well-typed and finite; so is a request with options set -/
+/-- the zero record is a well-typed request that json.Marshal accepts (whatever the regenerated field list is) -/
 example : WellTyped (zeroOpts Gen.CacheKey.optionFields) ∧ FiniteOpts (zeroOpts Gen.CacheKey.optionFields) := by
   constructor
-  · intro f ty h
-    simp only [Gen.CacheKey.optionFields, List.mem_cons, Prod.mk.injEq, List.not_mem_nil, or_false] at h
-    rcases h with ⟨rfl, rfl⟩ | ⟨rfl, rfl⟩ | ⟨rfl, rfl⟩ | ⟨rfl, rfl⟩ | ⟨rfl, rfl⟩ | ⟨rfl, rfl⟩ | ⟨rfl, rfl⟩ | ⟨rfl, rfl⟩ |
-      ⟨rfl, rfl⟩ | ⟨rfl, rfl⟩ | ⟨rfl, rfl⟩ <;> decide
+  · have h : ∀ p ∈ Gen.CacheKey.optionFields, kindOfGo p.2 = some (kindOf (zeroOpts Gen.CacheKey.optionFields p.1)) ∧
+        bitsOK (zeroOpts Gen.CacheKey.optionFields p.1) = true := by decide
+    exact fun f ty hm => h (f, ty) hm
   · intro f
     unfold zeroOpts
     split
     · unfold zeroOf; repeat (first | rfl | split)
     · rfl
 
-/-- the text of a concrete request, byte for byte what json.Marshal prints:
-    {"query":"a<","options":{"limit":5,"use_fuzzy":true}} -/
-example : jsonText natDigits Gen.KeyJson.queryName Gen.KeyJson.optionsName [0x61, 0x3C]
-      (proj coerce shC (((zeroOpts Gen.CacheKey.optionFields).set "Limit" (.int 5)).set "UseFuzzy" (.bool true))) =
-    lit "{\"query\":\"a\\u003c\",\"options\":{\"limit\":5,\"use_fuzzy\":true}}" := by
+/-- the model on a literal field table (independent of the source): the text of
+    ("a<", {Limit: 5, UseFuzzy: true, Platforms: nil, Boosts: nil}) is
+    {"query":"a\u003c","options":{"limit":5,"use_fuzzy":true,"boosts":null}} -/
+example :
+    let sh : Shape := ⟨[("Limit", "int", "limit", false), ("UseFuzzy", "bool", "use_fuzzy", true),
+        ("Platforms", "[]string", "platforms", true), ("Boosts", "map[string]float64", "boosts", false)],
+      [("Limit", "Limit"), ("UseFuzzy", "UseFuzzy"), ("Platforms", "Platforms"), ("Boosts", "Boosts")]⟩
+    let o : Opts := fun f => if f == "Limit" then .int 5 else if f == "UseFuzzy" then .bool true
+      else if f == "Platforms" then .strs none else .boosts none
+    jsonText natDigits "query" "options" [0x61, 0x3C] (proj coerce sh o) =
+      lit "{\"query\":\"a\\u003c\",\"options\":{\"limit\":5,\"use_fuzzy\":true,\"boosts\":null}}" := by
   have h5 : intText 5 = [0x35] := by
     unfold intText
     rw [if_neg (by decide), natDigits, if_pos (by decide)]
     rfl
   simp [jsonText, goString, coerce, coerceAux, Utf8.decodeRune, Utf8.runeError, quote, quoteBody, escByte, jname, lit, objText,
-    proj, shC, Gen.CacheKey.keyFields, Gen.CacheKey.convCached, fieldVal, jsonView, Opts.set, zeroOpts, zeroOf,
-    Gen.CacheKey.optionFields, List.lookup, Val.isEmpty, Val.json, encField, encVal, h5, trueText, joinClose,
-    joinTail, hexDigit, Gen.KeyJson.queryName, Gen.KeyJson.optionsName]
+    proj, fieldVal, jsonView, List.lookup, Val.isEmpty, Val.json, encField, encVal, h5, trueText, nullText, joinClose,
+    joinTail, hexDigit]
 
 end Wtf.C05
